@@ -61,6 +61,25 @@ def ast_features(program):
     return found
 
 
+def iter_statements(body):
+    """Every statement at any nesting depth (incl. matrix blocks)."""
+    for s in body:
+        yield s
+        tag = s[0]
+        if tag == 'if':
+            yield from iter_statements(s[2])
+            if s[3]:
+                yield from iter_statements(s[3])
+        elif tag == 'repeat':
+            yield from iter_statements(s[2])
+        elif tag == 'routine':
+            yield from iter_statements(s[3])
+        elif tag == 'action':
+            for operand in s[2]:
+                if operand[0] == 'matrix_block':
+                    yield from iter_statements(operand[2])
+
+
 class Outcome:
     def __init__(self):
         self.status = 'ok'      # ok | discard | fail
